@@ -335,6 +335,147 @@ struct W {
     }
 };
 
+// Readers of an interpolating stack next to writers of lattice points that are no corner of any reader's cell: along
+// axis 0 readers stay in [4j+1, 4j+2) (corners 4j+1 and 4j+2, the lattice point 4j+1 itself included), writers own the
+// points 4j and 4j+3. "Distinct coordinates" - the reads and writes touch disjoint storage, so ThreadSanitizer must stay
+// silent and every reader must obtain the sequential values.
+template <Lay L, size_t N>
+struct Mixed {
+    using IV = cv::vector_d<std::size_t, N>;
+    using A = cb::array<cv::vector_d<float, 2>>;
+    using S = layout_t<L, IV, A>;
+    using B = cb::linear<S, cv::vector_d<float, N>>;
+    using F = covfie::field<B>;
+    static std::string name() { return std::string("readers of linear<") + lay_name(L) + "> beside writers of other lattice points/N=" + std::to_string(N); }
+    static Verdict run(const Case & c)
+    {
+        if (L == Lay::morton_bmi2 && !have_bmi2()) {
+            return std::nullopt;
+        }
+        F f = W<L, Ip::lin, false, N>::build(c);
+        typename F::view_t shared(f);
+        typename S::non_owning_data_t raw(f.backend().get_backend());
+        const unsigned T = c.threads, R = (T + 1) / 2;
+        auto coord = [](const std::vector<int> & q) {
+            typename F::coordinate_t x;
+            for (size_t k = 0; k < N; ++k) {
+                x[k] = float(q[k]) / 4.f;
+            }
+            return x;
+        };
+        auto read_digest = [&](const typename F::view_t & v, const std::vector<std::vector<int>> & list) {
+            uint64_t h = 1469598103934665603ULL;
+            for (auto & q : list) {
+                auto r = v.at(coord(q));
+                float a = r[0], b = r[1];
+                h = fnv(&a, 4, h);
+                h = fnv(&b, 4, h);
+            }
+            return h;
+        };
+        std::vector<uint64_t> seq(T, 0), par(T, 0);
+        for (unsigned t = 0; t < R; ++t) {
+            seq[t] = read_digest(shared, c.lists[t]);
+        }
+        std::atomic<unsigned> go{0};
+        std::vector<std::thread> th;
+        for (unsigned t = 0; t < T; ++t) {
+            th.emplace_back([&, t] {
+                go.fetch_add(1);
+                while (go.load() < T) {
+                }
+                if (t < R) {
+                    if (c.shared_view) {
+                        par[t] = read_digest(shared, c.lists[t]);
+                    } else {
+                        typename F::view_t mine(f);
+                        par[t] = read_digest(mine, c.lists[t]);
+                    }
+                } else {
+                    for (auto & q : c.lists[t]) {
+                        typename S::contravariant_input_t::vector_t x;
+                        for (size_t k = 0; k < N; ++k) {
+                            x[k] = std::size_t(q[k]);
+                        }
+                        auto & cell = raw.at(x);
+                        cell[0] = float(t) * 100.f + float(q[0]);
+                        cell[1] = -cell[0];
+                    }
+                }
+            });
+        }
+        for (auto & x : th) {
+            x.join();
+        }
+        Hasher h;
+        h.vec(c.ext).pod(c.threads).pod(c.shared_view);
+        for (auto & l : c.lists) {
+            for (auto & q : l) {
+                h.vec(q);
+            }
+        }
+        record(name(), true, h.h, [&] { return c.to_json(); });
+        for (unsigned t = 0; t < R; ++t) {
+            if (par[t] != seq[t]) {
+                return "reader " + std::to_string(t) + " obtained different values than the sequential execution, although the writers only touched lattice points outside its cells";
+            }
+        }
+        return std::nullopt;
+    }
+    static rc::Gen<Case> gen()
+    {
+        return rc::gen::exec([] {
+            Case c;
+            const unsigned m = *in_range<unsigned>(2, N <= 2 ? 6 : 3);
+            c.ext.push_back(4 * m);
+            for (size_t k = 1; k < N; ++k) {
+                c.ext.push_back(*in_range<uint64_t>(2, N <= 3 ? 5 : 3));
+            }
+            c.threads = *in_range<unsigned>(2, 8);
+            c.shared_view = *rc::gen::arbitrary<bool>();
+            c.writers = false;
+            const unsigned T = c.threads, R = (T + 1) / 2, Wn = T - R;
+            c.lists.assign(T, {});
+            for (unsigned t = 0; t < R; ++t) {
+                unsigned n = *in_range<unsigned>(4, 24);
+                for (unsigned i = 0; i < n; ++i) {
+                    std::vector<int> q;
+                    unsigned j = *in_range<unsigned>(0, m - 1);
+                    // every third lookup sits exactly on the lattice point 4j+1 (an odd integer)
+                    q.push_back(int((4 * j + 1) * 4 + (*in_range<unsigned>(0, 2) == 0 ? 0 : *in_range<unsigned>(0, 3))));
+                    for (size_t k = 1; k < N; ++k) {
+                        q.push_back(int(*in_range<unsigned>(0, unsigned(4 * (c.ext[k] - 1) - 1))));
+                    }
+                    c.lists[t].push_back(q);
+                }
+            }
+            // writers: every lattice point with x0 in {4j, 4j+3}, dealt out round-robin
+            uint64_t cells = 1;
+            for (auto e : c.ext) {
+                cells *= e;
+            }
+            unsigned w = 0;
+            for (uint64_t r = 0; r < cells && Wn > 0; ++r) {
+                std::vector<int> q(N);
+                uint64_t qd = r;
+                for (size_t k = N; k-- > 0;) {
+                    q[k] = int(qd % c.ext[k]);
+                    qd /= c.ext[k];
+                }
+                if (q[0] % 4 == 0 || q[0] % 4 == 3) {
+                    c.lists[R + (w++ % Wn)].push_back(q);
+                }
+            }
+            return c;
+        });
+    }
+    static void campaign() { rc_campaign<Case>(name(), tier(40, 1500), 100, gen(), run); }
+    static void reg()
+    {
+        add_inst(name(), campaign, [](const json & j) { return run(Case::from_json(j)); });
+    }
+};
+
 // deliberately racy workload: TSan must report it (positive control of the environment)
 void racy_control()
 {
@@ -455,6 +596,13 @@ void register_all()
     W<Lay::strided, Ip::lin, false, 5>::reg();
     W<Lay::morton_port, Ip::lin, false, 4>::reg();
     W<Lay::morton_port, Ip::none, false, 4>::reg();
+    // readers of interpolating stacks beside writers of lattice points outside their cells
+    Mixed<Lay::strided, 1>::reg();
+    Mixed<Lay::strided, 2>::reg();
+    Mixed<Lay::morton_port, 2>::reg();
+    Mixed<Lay::strided, 3>::reg();
+    Mixed<Lay::hilbert, 2>::reg();
+    Mixed<Lay::strided, 4>::reg();
     // interpolators over layers that return by value
     W<Lay::strided, Ip::lin_clamp, false, 1>::reg();
     W<Lay::strided, Ip::lin_clamp, false, 2>::reg();
